@@ -380,12 +380,35 @@ func (g *Gen) edgeCond(p, b *ssa.BasicBlock) string {
 }
 
 func (g *Gen) mergeHeaps(preds []*ssa.BasicBlock, conds []string) *Heap {
+	var hs []*Heap
+	for _, p := range preds {
+		hs = append(hs, g.endHeap[p])
+	}
+	return g.mergeHeapList(hs, conds)
+}
+
+// mergeTwoHeaps: heap a where cond holds, heap b otherwise.
+func (g *Gen) mergeTwoHeaps(a, b *Heap, cond string) *Heap {
+	return g.mergeHeapList([]*Heap{a, b}, []string{cond, not(cond)})
+}
+
+// loopOfBlock: the loop (cut at its header) a block belongs to, if any.
+func (g *Gen) loopOfBlock(b *ssa.BasicBlock) *loopInfo {
+	for _, li := range g.loopOfHeader {
+		if li.blocks[b] {
+			return li
+		}
+	}
+	return nil
+}
+
+func (g *Gen) mergeHeapList(preds []*Heap, conds []string) *Heap {
 	if len(preds) == 1 {
-		return g.endHeap[preds[0]].clone()
+		return preds[0].clone()
 	}
 	names := map[string]bool{}
 	for _, p := range preds {
-		for n := range g.endHeap[p].m {
+		for n := range p.m {
 			names[n] = true
 		}
 	}
@@ -395,16 +418,53 @@ func (g *Gen) mergeHeaps(preds []*ssa.BasicBlock, conds []string) *Heap {
 	}
 	sort.Strings(sorted)
 	h := &Heap{m: map[string]string{}}
+	// generation markers (a heap havocked as a whole): equal on all incoming edges -> kept; otherwise the merged
+	// heap gets a generation of its own whose not-yet-mentioned heaps are merged lazily (see heapGet)
+	{
+		gen0, all := preds[0].m["$gen"]
+		for _, p := range preds {
+			if gv, ok := p.m["$gen"]; ok != all || gv != gen0 {
+				all = false
+				gen0 = ""
+				break
+			}
+		}
+		anyGen := false
+		for _, p := range preds {
+			if _, ok := p.m["$gen"]; ok {
+				anyGen = true
+			}
+		}
+		switch {
+		case all && gen0 != "":
+			h.m["$gen"] = gen0
+		case anyGen:
+			g.havocAll++
+			id := fmt.Sprintf("%dm", g.havocAll)
+			gm := &genMerge{conds: conds}
+			for _, p := range preds {
+				gm.heaps = append(gm.heaps, p)
+			}
+			if g.genMerges == nil {
+				g.genMerges = map[string]*genMerge{}
+			}
+			g.genMerges[id] = gm
+			h.m["$gen"] = id
+		}
+	}
 	for _, n := range sorted {
+		if n == "$gen" {
+			continue
+		}
 		srt := g.heapSorts[n]
 		var terms []string
 		same := true
 		for _, p := range preds {
 			var t string
 			if n == "$alloc" {
-				t = g.allocTerm(g.endHeap[p])
+				t = g.allocTerm(p)
 			} else {
-				t = g.heapGet(g.endHeap[p], n, srt)
+				t = g.heapGet(p, n, srt)
 			}
 			terms = append(terms, t)
 			if t != terms[0] {
@@ -1174,7 +1234,22 @@ func (g *Gen) execInstr(in ssa.Instruction) {
 		for i := len(g.defers) - 1; i >= 0; i-- {
 			d := g.defers[i]
 			if !d.Block().Dominates(g.curBlock) {
-				panic(unsupported("conditional defer"))
+				// a defer that only some paths to this return have executed: run it under the condition that its
+				// block was executed (loops are cut, so "block executed" means "executed before this point")
+				flag, ok := g.reach[d.Block()]
+				if !ok {
+					continue // the defer statement lies on no path to this point
+				}
+				if g.loopOfBlock(d.Block()) != nil {
+					panic(unsupported("defer inside a loop"))
+				}
+				before := g.heap.clone()
+				save := g.curReach
+				g.curReach = and(save, flag)
+				g.call(d, d.Common(), nil)
+				g.curReach = save
+				g.heap = g.mergeTwoHeaps(g.heap, before, flag)
+				continue
 			}
 			g.call(d, d.Common(), nil)
 		}
@@ -1184,6 +1259,24 @@ func (g *Gen) execInstr(in ssa.Instruction) {
 			panic(unsupported("go statement `go %s` (list it as `assume pure go %s` to ignore the spawned goroutine)", name, name))
 		}
 		g.addAssumption("goroutine `go " + name + "` not executed (spawn ignored)")
+	case *ssa.Send:
+		g.addAssumption("channel operations (send, receive, select) are treated as scheduling points without effect on verified state: a receive yields an arbitrary value, a select takes any branch; blocking, ordering and termination are not modelled")
+	case *ssa.Select:
+		g.addAssumption("channel operations (send, receive, select) are treated as scheduling points without effect on verified state: a receive yields an arbitrary value, a select takes any branch; blocking, ordering and termination are not modelled")
+		tup := x.Type().(*types.Tuple)
+		idx := g.freshVal("select.idx", tup.At(0).Type())
+		lo := int64(0)
+		if !x.Blocking {
+			lo = -1
+		}
+		g.assume(g.curReach, and(g.intCmp("<=", g.intConst(big.NewInt(lo), tup.At(0).Type()), idx.S, tup.At(0).Type()), g.intCmp("<", idx.S, g.intConst(big.NewInt(int64(len(x.States))), tup.At(0).Type()), tup.At(0).Type())))
+		fs := []Val{idx, sv(boolT, g.fresh("select.ok", "Bool"))}
+		for i := 2; i < tup.Len(); i++ {
+			v := g.freshVal("select.recv", tup.At(i).Type())
+			g.typeFacts(g.curReach, v)
+			fs = append(fs, v)
+		}
+		g.vals[x] = Val{K: kStruct, T: x.Type(), Fs: fs}
 	case *ssa.Range:
 		g.vals[x] = sv(x.Type(), g.newRef("iter"))
 		g.rangeOver[x] = x.X
@@ -1278,6 +1371,25 @@ func (g *Gen) sliceOp(x *ssa.Slice) Val {
 		}
 		goal := and(g.idxLe(z, lo), g.idxLe(lo, hi), g.idxLe(hi, n))
 		g.oblig("bounds", g.srcText(x.Pos()), goal, "array slice bounds", x.Pos(), false)
+		if base.K == kPtr && x.Low == nil && x.High == nil && x.Max == nil && at.Len() <= 16 {
+			// arr[:] of a small array embedded in a struct, used only as the destination of copy(): the slice value
+			// remembers the array's location (P) and copyOp stores element by element into the field's heap
+			onlyCopyDst := true
+			for _, ref := range *x.Referrers() {
+				switch r := ref.(type) {
+				case *ssa.DebugRef:
+				case *ssa.Call:
+					if b, ok := r.Call.Value.(*ssa.Builtin); !ok || b.Name() != "copy" || r.Call.Args[0] != ssa.Value(x) || r.Call.Args[1] == ssa.Value(x) {
+						onlyCopyDst = false
+					}
+				default:
+					onlyCopyDst = false
+				}
+			}
+			if onlyCopyDst {
+				return Val{K: kSlice, T: x.Type(), Arr: "0", Off: z, Len: n, Cap: n, P: base.P}
+			}
+		}
 		if base.K != kScalar {
 			panic(unsupported("slicing an array that is embedded in a struct (only standalone arrays are modelled)"))
 		}
@@ -1359,6 +1471,10 @@ func (g *Gen) unop(x *ssa.UnOp) Val {
 		p := g.ptrOf(a)
 		v := g.load(g.heap, p)
 		g.loadFacts(v)
+		if gl, ok := x.X.(*ssa.Global); ok && v.K == kScalar && g.w.globalNonNilErr(gl) {
+			g.addAssumption("package variable " + gl.Name() + " holds the non-nil error it is initialised with (never reassigned: checked by scanning every store in the program)")
+			g.assume(g.curReach, not(eq(v.S, "0")))
+		}
 		return v
 	case token.NOT:
 		return sv(x.Type(), not(a.S))
@@ -1378,13 +1494,51 @@ func (g *Gen) unop(x *ssa.UnOp) Val {
 		}
 		return sv(x.Type(), "(bvnot "+a.S+")")
 	case token.ARROW:
-		panic(unsupported("channel receive"))
+		// channel receive: the value received is arbitrary (channels carry wake-ups, tokens and messages whose
+		// producers are other goroutines: not modelled); blocking and ordering are not modelled
+		g.addAssumption("channel operations (send, receive, select) are treated as scheduling points without effect on verified state: a receive yields an arbitrary value, a select takes any branch; blocking, ordering and termination are not modelled")
+		ct := x.X.Type().Underlying().(*types.Chan)
+		v := g.freshVal("recv", ct.Elem())
+		g.typeFacts(g.curReach, v)
+		if x.CommaOk {
+			return Val{K: kStruct, T: x.Type(), Fs: []Val{v, sv(boolT, g.fresh("recvok", "Bool"))}}
+		}
+		return v
 	}
 	panic(unsupported("unary %s", x.Op))
 }
 
 // globalConstant: value of a package-level string / []byte variable that is never reassigned (see World.globalInit).
 func (g *Gen) globalConstant(gl *ssa.Global) (Val, bool) {
+	if es, ok := g.w.globalMapInit(gl); ok {
+		// a map literal that is never updated: a fixed object whose domain and values are exactly the literal's
+		mt := gl.Type().Underlying().(*types.Pointer).Elem().Underlying().(*types.Map)
+		ref := g.globalRef(gl.Pkg.Pkg.Path() + "." + gl.Name() + "#map")
+		if !g.declared["maplit:"+ref] {
+			g.declared["maplit:"+ref] = true
+			g.addAssumption("package variable " + gl.Name() + " (map literal) is only assigned by its initialiser and never updated (checked by scanning every use in the program); treated as a constant map")
+			env := g.baseEnv()
+			env.heap = g.heap0
+			dom, ln, _, _ := g.mapHeaps(env, mt)
+			q := g.qvar()
+			var isKey []string
+			for _, e := range es {
+				k := g.coerce(g.constVal(e.K), mt.Key())
+				v := g.coerce(g.constVal(e.V), mt.Elem())
+				isKey = append(isKey, eq(q, k.S))
+				g.assume("true", sel(dom, ref, k.S))
+				got := g.mapLookup(env, ref, mt, k)
+				fa, fb := g.flatten(got), g.flatten(v)
+				for i := range fa {
+					g.assume("true", eq(fa[i], fb[i]))
+				}
+			}
+			g.assume("true", fmt.Sprintf("(forall ((%s %s)) (! (=> (select (select %s %s) %s) %s) :pattern ((select (select %s %s) %s)) :qid maplit_dom))",
+				q, g.scalarSort(mt.Key()), dom, ref, q, or(isKey...), dom, ref, q))
+			g.assume("true", eq(sel(ln, ref), g.idxConst(int64(len(es)))))
+		}
+		return sv(gl.Type().Underlying().(*types.Pointer).Elem(), ref), true
+	}
 	lit, ok := g.w.globalInit(gl)
 	if !ok {
 		return Val{}, false
